@@ -29,6 +29,8 @@ type Frame struct {
 	visits    map[int]int
 	variants  map[int][]*T // loop index -> variant at the head
 	heads     map[int]*Env // loop index -> environment at the last visit of the head
+	binds     map[string]Val
+	bindTypes map[string]types.Type
 	call      ssa.CallInstruction // call site in the parent frame (inlined frames)
 	site      string              // obligation name prefix for inlined code
 	wrap64    bool
@@ -113,6 +115,11 @@ func (st *State) clone() *State {
 		for k, v := range f.variants {
 			nf.variants[k] = v
 		}
+		nf.binds = make(map[string]Val, len(f.binds))
+		for k, v := range f.binds {
+			nf.binds[k] = v
+		}
+		nf.bindTypes = f.bindTypes
 		nf.heads = make(map[int]*Env, len(f.heads))
 		for k, v := range f.heads {
 			nf.heads[k] = v
@@ -750,6 +757,20 @@ func (x *Exec) Verify(f *ssa.Function, c *FuncContract) {
 			st.assume(t)
 		}
 	}
+	// contract variables bound to call results: unconstrained until the call happens
+	fr.binds = map[string]Val{}
+	fr.bindTypes = map[string]types.Type{}
+	if c != nil && len(c.CallBinds) > 0 {
+		tbl := sites(f)
+		for in, name := range tbl.names {
+			if bn, ok := c.CallBinds[name]; ok {
+				if cv, ok := in.(*ssa.Call); ok && cv.Type() != nil && !isEmptyTuple(cv.Type()) {
+					fr.binds[bn] = x.freshVal(st, cv.Type(), "unbound!"+bn)
+					fr.bindTypes[bn] = cv.Type()
+				}
+			}
+		}
+	}
 	x.emitCover(st, x.topKey+"/cover:pre")
 	x.run(st)
 }
@@ -1121,6 +1142,10 @@ func (x *Exec) envFor(st *State, fr *Frame) *Env {
 		tys[fmt.Sprintf("%s#%d", name, k)] = t
 		vars[name] = v
 		tys[name] = t
+	}
+	for k, v := range fr.binds {
+		vars[k] = v
+		tys[k] = fr.bindTypes[k]
 	}
 	return &Env{x: x, st: st, vars: vars, types: tys, pkg: fr.fn.Pkg.Pkg, old: x.preEnv, facts: st, heads: fr.heads}
 }
